@@ -367,7 +367,7 @@ def jobs(tier):
 
 LEVEL = "other"
 BOUNDS = {
-    "quick": "any_iter: all 30 combinations {plain, coroutine, future-like awaitable that is also iterable} x {list, sync iterator, async generator, class-based async iterator with / without aclose} x {plain items, awaitable items}, length 0..4, every number of consumer steps 0..5, awaitables suspending 0..1 times; await_each: length 0..4, steps, one failing awaitable at any position, list or lazy iterable; apply: 0..4 arguments, every positional/keyword split, one failing argument, failing function, function returning a plain value / a custom awaitable / a coroutine (returned as it is); sync: def / async def / partial(async def) / callable object returning a coroutine / lambda returning a coroutine / sync callable object / function returning a non-coroutine awaitable / partial(def), returning or raising",
+    "quick": "any_iter: all 30 combinations {plain, coroutine, future-like awaitable that is also iterable} x {list, sync iterator, async generator, class-based async iterator with / without aclose} x {plain items, awaitable items}, length 0..4, every number of consumer steps 0..5, awaitables suspending 0..1 times; await_each: length 0..4, steps, one failing awaitable at any position, list or lazy iterable; apply: 0..4 arguments, every positional/keyword split, one failing argument, failing function, function returning a plain value / a custom awaitable / a coroutine (returned as it is); sync: def / async def / partial(async def) / callable object returning a coroutine / lambda returning a coroutine / sync callable object / function returning a non-coroutine awaitable / partial(def), returning or raising; one wrapper called twice with results alternating between plain and awaitable; nothing awaited when an await_each stream is closed early",
     "thorough": "lengths 0..6",
 }
 OUTSIDE = ["lengths above the bound", "awaitable items that are themselves async iterables"]
